@@ -50,6 +50,21 @@ def rows_of(k, slots, inner_step=2, outer_step=1, outer_coord_offset=1):
     return reads, writes
 
 
+def shared_rows(seq, ntensors=2):
+    """One loop rank, several tensors: access j of `seq` ((tensor index, pos,
+    kind 'r' / 'w'), ...) happens at iteration j; a read has stamp (2j,), a
+    write (2j+1,) (the populate convention), so all stamps are distinct and the
+    global order of the accesses is the order of `seq`.
+    Returns [(reads, writes) per tensor]."""
+    out = [([], []) for _ in range(ntensors)]
+    for j, (t, pos, kind) in enumerate(seq):
+        if kind == "r":
+            out[t][0].append(((2 * j,), (pos,), pos))
+        else:
+            out[t][1].append(((2 * j + 1,), (pos,), pos))
+    return out
+
+
 def header(ranks):
     return ",".join([r + "_pos" for r in ranks] + list(ranks) + ["fiber_pos"])
 
